@@ -14,7 +14,7 @@ pub trait IndexBuilder: QuotedBuilder + TableRefBuilder {
                 sql,
                 "CONSTRAINT {}{}{} ",
                 self.quote().left(),
-                name,
+                Alias::new(name).quoted(self.quote()),
                 self.quote().right()
             )
             .unwrap();
